@@ -23,7 +23,10 @@ def cmdInstalled (m : List (String × String)) : String :=
 
 /-- `clientaddr xff=<hex> peer=<hex>` -/
 def cmdClientAddr (m : List (String × String)) : String :=
-  hexOf (clientAddr (getHex m "xff") (getHex m "peer"))
+  -- `xffs=<hex>,<hex>,…` (`_` = no such line): every `X-Forwarded-For` line of the request, in order
+  if (m.find? (fun p => p.1 = "xffs")).isSome then
+    hexOf (clientAddrOf (getHexList m "xffs") (getHex m "peer"))
+  else hexOf (clientAddr (getHex m "xff") (getHex m "peer"))
 
 def optNat (m : List (String × String)) (k : String) : Option Nat :=
   let v := get m k
